@@ -583,6 +583,7 @@ class Run:
         cyclic = find_cycle(ab)
         slots = w.last_slots; num = w.last_num
         self.count('pos-inv:' + ('holds' if pos_inv(slots) else 'FAILS'))
+        txn_before = [bool(cache.in_transaction), bool(cache.immediate)]
         spy = None
         if kind != 'oflush':
             spy = cache.objects_to_save = SpyList(cache.objects_to_save)
@@ -600,6 +601,10 @@ class Run:
             if live is not None:
                 after = {'queue': [None if o is None else num.get(o, -1) for o in live], 'pos': [o._save_pos_ for o in objs]}
         trace, unknown, items = w.parse_trace(by_tag, by_pk, objs)
+        # the transaction flags and the BEGIN statement(s) around the statements of this flush
+        kinds_in_log = ['begin' if sql.startswith('BEGIN') else 'write' if INS.match(sql) or UPD.match(sql) or DEL.match(sql) else 'other' for sql, _ in w.log]
+        txn = {'before': txn_before, 'after': [bool(cache.in_transaction), bool(cache.immediate)], 'begins': kinds_in_log.count('begin'),
+               'begin_first': ('begin' in kinds_in_log and 'write' in kinds_in_log and kinds_in_log.index('begin') < kinds_in_log.index('write'))}
         # rows that exist when the flush starts; the hypotheses of theorem C16_fk_accepts on the real session
         HASROW = ('loaded', 'modified', 'marked_to_delete', 'inserted', 'updated')
         rows0 = [k for k, st in enumerate(ab['status']) if st in HASROW]
@@ -621,7 +626,7 @@ class Run:
                 real['chain'] = str(err).split(': ', 1)[1].split(' -> ')
         rec = {'kind': kind, 'request': dict(ab, op='flush'), 'real': real, 'ent_of': ent_of, 'cyclic': cyclic,
                'partial_trace': trace if err is not None else None, 'rows0': rows0, 'hyp': hyp, 'items': items,
-               'slots': dict(slots, ok=pos_inv(slots)), 'slots_after': after, 'top': ab['queue'][0] if kind == 'oflush' else None}
+               'slots': dict(slots, ok=pos_inv(slots)), 'slots_after': after, 'txn': txn, 'top': ab['queue'][0] if kind == 'oflush' else None}
         self.records.append(rec)
         self.count('flush-point:' + kind)
         self.count('outcome:' + ('ok' if err is None else type(err).__name__))
@@ -641,6 +646,14 @@ class Run:
                 except Exception as e2: det['classification_error'] = repr(e2)
             self.problems.append(('flush raised %s although the pending references can be ordered' % type(err).__name__, det))
         if err is None:
+            # C16_deletes_in_queue_order on the real flush: DELETEs come in the order _delete_ queued the objects
+            dq = []
+            for q in (slots['queue'] if kind != 'oflush' else ab['queue']):
+                if q is not None and ab['status'][q] == 'marked_to_delete' and q not in dq: dq.append(q)
+            dt = [wr[1] for wr in trace if wr[0] == 'delete']
+            if len(dt) > 1: self.count('deletes-in-queue-order:checked(>1 delete)')
+            if dt != dq:
+                self.problems.append(('DELETE statements are not in the order of the save queue', {'queue': slots['queue'], 'deletes': dt}))
             # "flushing succeeds" = the pending writes were emitted: nothing that was queued may still be pending
             left = [k for k, o in enumerate(objs) if o._status_ in PENDING and (kind != 'oflush' or o is obj)]
             if left:
@@ -781,6 +794,21 @@ def check_records(ctx, runs):
     # the same flush points through the slot model (real queue bookkeeping): statements, final slots and positions
     sreqs = [dict(rec['request'], op='slots', queue=rec['slots']['queue'], pos=rec['slots']['pos'], top=rec['top']) for r, rec in where]
     souts = ctx.driver('C16', sreqs)
+    treqs = [{'op': 'txn', 'inTxn': rec['txn']['before'][0], 'immediate': rec['txn']['before'][1], 'mode': 'exec' if rec['top'] is not None else 'flush',
+              'writes': rec['real']['ok'] if 'ok' in rec['real'] else (rec['partial_trace'] or [])} for r, rec in where]
+    touts = ctx.driver('C16', treqs)
+    for (r, rec), tout, treq in zip(where, touts, treqs):
+        # a refused statement was sent but did not execute: the flags are those after the statements before it
+        real_t = {'inTxn': rec['txn']['after'][0], 'immediate': rec['txn']['after'][1], 'begin': rec['txn']['begins'] > 0}
+        model_t = {k: tout.get(k) for k in ('inTxn', 'immediate', 'begin')}
+        ctx.count('txn:begin=%s,inTxn-before=%s' % (real_t['begin'], rec['txn']['before'][0]))
+        if rec['txn']['begins'] > 1 or (rec['txn']['begins'] == 1 and treq['writes'] and not rec['txn']['begin_first']):
+            ctx.divergence('a flush statement was sent before BEGIN / more than one BEGIN', {'request': treq, 'history': r.hist, 'spec': r.spec}, model=model_t, impl=rec['txn'])
+        if tout.get('autocommitted') != 0:
+            ctx.divergence('transaction model: a statement of a flush outside the transaction', treq, model=tout, impl=real_t)
+        if model_t != real_t:
+            ctx.divergence('connection flags (in_transaction, immediate, BEGIN issued) after the real flush differ from the transaction model',
+                           {'request': treq, 'history': r.hist, 'spec': r.spec, 'strict': r.strict}, model=model_t, impl=dict(real_t, detail=rec['txn']))
     outs = ctx.driver('C16', reqs)
     for (r, rec), out, sout in zip(where, outs, souts):
         if rec['slots']['ok']:
